@@ -117,6 +117,7 @@ type chainStep struct {
 
 func checkC14(c *Ctx) {
 	r := c.R
+	r.Rule("R04.6", "(shared with C04) the caller printer is reached by every record: the order of the record printer's steps (.., attributes, caller, ..) holds on every path, the caller step being skipped only under its own flag")
 	r.Rule("R09.1", "(shared with C09) the caller printed is this record's: no field of the pooled encoder (cached source, prefix) is read before the current record wrote it")
 	r.Rule("R02.1", "(shared with C02) every record written carries its caller: one emission per call, on the path that runs the caller printer (no second emission from a deferred recovery that bypasses it)")
 	r.Rule("R02.3", "(shared with C02) the payload is the finished buffer of the regular path")
@@ -148,7 +149,10 @@ func checkC14(c *Ctx) {
 		c14Flow(c, p, m)
 		c14FuncName(c, p)
 		c14NoInterfaceReentry(c, p, m)
-		callerPrinterFlagFree(c, p, "R14.5")
+		prefixCutAgrees(c, p, "R14.6")
+		pkgForwardersPassArgs(c, p, "R14.3")
+		fieldOrder(c, p, m, Mode{true, true}, "R04.6", []string{"Begin", "printTimestamp", "printLoggerName", "printSeverity", "printMsg", "serializeAttrs", "printPC", "printRestLinesOfMsg", "End", "Bytes", "printOut"}, map[string]bool{"printPC": true, "printRestLinesOfMsg": true})
+		callerPrinterFlagFree(c, p, m, "R14.5")
 		c09Pooled(c, p, m, "R09.1", feasibleModes)
 		c02Counts(c, p, m)
 		c02Newline(c, p, m)
